@@ -93,6 +93,11 @@ def classify(cfg, cands, ballots, symptom, rng_events=()):
     plus the symptom), or None.  Keys correspond to known_findings.json entries."""
     r = cfg["rule"]
     st = symptom  # exception type name, or 'seatcount' / 'round-budget' / 'call-budget'
+    if r in rules.SCORE_RULES and st == "TypeError" and any(
+            rr and sc and {c for g in rr for c in g} - {c for c, v in sc.items() if v != 0} for rr, w, sc in ballots):
+        # the mirror image: a scored ballot that also RANKS a candidate it does not score outlives its scores (the winners it
+        # scored are removed, the ranking keeps it alive) and the next round of the score rule finds a ballot without scores
+        return "mixed-ballot-scores-exhausted"
     if r in rules.RANKING_RULES and st == "TypeError" and any(
             rr and sc and set(sc) - {c for g in rr for c in g} for rr, w, sc in ballots):
         # a ballot with a ranking AND scores for a candidate it does not rank: when its ranked candidates have all been elected
